@@ -488,19 +488,19 @@ func registerLibIntrinsics(m map[string]intrinsic) {
 	m["time.Since"] = func(w *World, g *G, args []Value, fin func(Value)) {
 		fin(w.tt.Bin(OpSub, w.now(), timeNs(args[0])))
 	}
-	m["time.Time.Add"] = func(w *World, g *G, args []Value, fin func(Value)) {
+	m["(time.Time).Add"] = func(w *World, g *G, args []Value, fin func(Value)) {
 		fin(w.timeVal(w.tt.Bin(OpAdd, timeNs(args[0]), args[1].(*Term))))
 	}
-	m["time.Time.Sub"] = func(w *World, g *G, args []Value, fin func(Value)) {
+	m["(time.Time).Sub"] = func(w *World, g *G, args []Value, fin func(Value)) {
 		fin(w.tt.Bin(OpSub, timeNs(args[0]), timeNs(args[1])))
 	}
-	m["time.Time.Before"] = func(w *World, g *G, args []Value, fin func(Value)) {
+	m["(time.Time).Before"] = func(w *World, g *G, args []Value, fin func(Value)) {
 		fin(w.tt.Cmp(OpSlt, timeNs(args[0]), timeNs(args[1])))
 	}
-	m["time.Time.After"] = func(w *World, g *G, args []Value, fin func(Value)) {
+	m["(time.Time).After"] = func(w *World, g *G, args []Value, fin func(Value)) {
 		fin(w.tt.Cmp(OpSlt, timeNs(args[1]), timeNs(args[0])))
 	}
-	m["time.Time.IsZero"] = func(w *World, g *G, args []Value, fin func(Value)) {
+	m["(time.Time).IsZero"] = func(w *World, g *G, args []Value, fin func(Value)) {
 		fin(w.tt.Eq(timeNs(args[0]), w.tt.BV(0, 64)))
 	}
 	m["time.NewTimer"] = func(w *World, g *G, args []Value, fin func(Value)) { fin(w.newTimer("Timer", false)) }
